@@ -984,10 +984,33 @@ func c13Exhaustive(ctx *Ctx) {
 		run("range", c13Ints(0, 1024*st+st/absInt(st), st), false)
 		run("range", c13Ints(0, 1025*st, st), false)
 	}
+	// regression (/repo 8027069): a dynamically-typed argument of the set algebra functions gives
+	// cty.DynamicVal, at every position, instead of a PanicError (correspondence only: not wholly known)
+	{
+		set := cty.SetVal([]cty.Value{cty.StringVal("a"), cty.StringVal("b")})
+		for _, name := range []string{"setunion", "setintersection", "setsubtract", "setsymmetricdifference"} {
+			if name != "setsubtract" {
+				c13Case(ctx, name, []cty.Value{cty.DynamicVal}, false)
+				c13Case(ctx, name, []cty.Value{set, cty.DynamicVal, set}, false)
+			}
+			for _, args := range [][]cty.Value{
+				{cty.DynamicVal, set}, {set, cty.DynamicVal}, {cty.DynamicVal, cty.DynamicVal},
+				{cty.SetValEmpty(cty.DynamicPseudoType), cty.DynamicVal}, {cty.DynamicVal, cty.UnknownVal(cty.Set(cty.Number))},
+			} {
+				res := c13Case(ctx, name, args, false)
+				ctx.Eval(name+" "+c13EncArgs(args), true)
+				if res.class != "ok" || res.val.IsKnown() {
+					ctx.Fail(Failure{Site: name, Sig: name + ":dynamic-argument-not-unknown",
+						What:  "a call with a dynamically-typed argument (allowed by the parameter) must succeed with an unknown result (regression of /repo 8027069)",
+						Input: c13EncArgs(args), GoLit: c13GoLit(name, args), Outcome: res.wire()})
+				}
+			}
+		}
+	}
 	ctx.res.Exhaustive = true
 	ctx.res.Scope = "element: lists and tuples of every length 0-6 x index -12..12; slice: every length 0-6 x start,end in -1..7; " +
 		"chunklist: every length 0-6 x size -1..8; index/hasindex: every length 0-6 x key -2..7; range: every 1-, 2- and 3-argument call over -4..4, " +
-		"the 1024-element limit from both sides for six steps, and the cty.Zero singleton as step"
+		"the 1024-element limit from both sides for six steps, and the cty.Zero singleton as step; set algebra: cty.DynamicVal at every argument position"
 }
 
 func absInt(x int) int {
